@@ -26,7 +26,8 @@
    target, lenient whitespace in the request line, an HTTP-version other than
    1.0 / 1.1, "identity" as a transfer coding (reject or ignore), empty list
    elements in Transfer-Encoding, chunk extensions that are not well-formed but
-   contain only octets an extension can contain,
+   contain only octets an extension can contain, quoted-pairs in a chunk
+   extension value,
    Transfer-Encoding on an HTTP/1.0 request, BWS in a chunk-size line,
    syntax of trailer fields, keep-alive on HTTP/1.0.
    Timing: a 400 is REQUIRED only once the stream contains a complete line after
@@ -259,7 +260,10 @@ Chunks(s, L, q, body, opt) ==
             ELSE LET n == IF hexEnd - q + 1 > 7 THEN Huge ELSE HexV(s, q, hexEnd)
                      \* BWS before ";" and extensions that are not well-formed (but made of octets an
                      \* extension can contain): the implementation may refuse or ignore them
-                     opt2 == opt \/ hexEnd # rawEnd \/ (semi # 0 /\ ~ExtWF(s, semi + 1, e - 1, "semi"))
+                     \* A quoted-pair inside a quoted extension value is well-formed, but a server may bound what
+                     \* extensions it takes and answer 4xx (RFC 9112 7.1.1): refuse or ignore.
+                     opt2 == opt \/ hexEnd # rawEnd
+                                 \/ (semi # 0 /\ (~ExtWF(s, semi + 1, e - 1, "semi") \/ Find(s, semi + 1, e - 1, 92) # 0))
                  IN IF n = 0 THEN Trailers(s, L, e + 2, body, opt2)
                     ELSE IF Len(s) < e + 1 + n + 2 THEN [st |-> "inc", opt |-> opt2]
                     ELSE IF s[e + 2 + n] = CR /\ s[e + 3 + n] = LF
